@@ -272,12 +272,17 @@ class BaseObserver(EventDispatcher):
         return self._emitters
 
     def start(self) -> None:
-        for emitter in self._emitters.copy():
-            try:
-                emitter.start()
-            except Exception:
-                self._remove_emitter(emitter)
-                raise
+        with self._lock:
+            for emitter in self._emitters.copy():
+                if emitter.is_alive():
+                    # start() was called before: starting the emitter again would set up its resources
+                    # a second time before the thread refuses to start.
+                    continue
+                try:
+                    emitter.start()
+                except Exception:
+                    self._remove_emitter(emitter)
+                    raise
         super().start()
 
     def schedule(
